@@ -29,6 +29,10 @@ type c05 struct {
 func (r *c05) cb(v, pos int) { r.log = append(r.log, fmt.Sprintf("%d@%d", v, pos)) }
 
 func (r *c05) obs(res string) string {
+	if blindObs { // second, query-free execution (Stream.Blind): drop the callback log, ask nothing
+		r.log = r.log[:0]
+		return "r=" + res
+	}
 	var d []int
 	r.q.Each(func(v int) bool { d = append(d, v); return true })
 	r.lg.see(r.st, "heapq", len(d))
@@ -476,7 +480,7 @@ func genC05sort(g *G) {
 
 func init() {
 	mk := func(st *Stats) Runner { r := &c05{st: st}; r.q = heapq.New(c05cmp).Update(r.cb); return r }
-	register(&Stream{Name: "C05", Gen: genC05, New: mk})
-	register(&Stream{Name: "C06", Gen: genC05, New: mk})
+	register(&Stream{Name: "C05", Gen: genC05, New: mk, Blind: true})
+	register(&Stream{Name: "C06", Gen: genC05, New: mk, Blind: true})
 	register(&Stream{Name: "C05.sort", Gen: genC05sort, New: func(st *Stats) Runner { return &c05sort{st: st} }})
 }
